@@ -6,6 +6,7 @@
 //!   q <protected> <in1> <in2> …      Quoter::new(b"", protected).requote(in_k) for every k
 //!   m <F|P> <pats> <path>…           ResourceDef::new / ::prefix; per path is_match/find_match/capture_match_info
 //!   b <F|P> <pats> <val>…            resource_path_from_iter, then capture_match_info on the built path
+//!   bm <F|P> <pats> <name>=<val>…    resource_path_from_map (later duplicates win, as in HashMap::insert)
 //!   k <path> <F|P>:<pat>…            successive capture_match_info calls on one Path
 //!     <pats> = `S <pat>` (Patterns::Single) | `L<n> <pat>×n` (Patterns::List)
 use std::panic::{catch_unwind, AssertUnwindSafe};
@@ -15,7 +16,12 @@ use actix_router::{Path, Patterns, Quoter, ResourceDef};
 use super::Prop;
 use crate::common::{hex, unhex, CaseResult, Ctx, Rng};
 
-const RULE: &str = "q-cases: Quoter::requote on all 1- and 2-byte strings, all 3-byte strings starting with '%', \
+const RULE: &str = "m-cases: one ResourceDef (full or prefix; single pattern or pattern list) x up to 256 paths, \
+per path is_match / find_match / capture_match_info with offsets and values: exhaustive patterns of 1-2 segments from a menu of 10 shapes \
+and 3 segments from a menu of 6 (static /a / a -, {x}, {x:\\d+}, {x:[ab]{2}}, {x:.*}, {x:[^/]*}, {x:a?}, tail {t}*) x all paths over {a,1,/,%,2,F} \
+up to length 4 (5 in thorough), pattern lists of 0/1/2, random regexes of the modelled fragment x sampled+mutated Unicode paths, malformed patterns, \
+long paths up to 65535 bytes; b/bm-cases: resource_path_from_iter / from_map then capture; k-cases: chained captures on one Path; \
+an m/b/k case is non-trivial if at least one path matched (b: values legal for the pattern); q-cases: Quoter::requote on all 1- and 2-byte strings, all 3-byte strings starting with '%', \
 all strings over {%,2,F,5,/,a,x} up to length 6 (batched 64 inputs per line) for the protected sets {}, {%/+}, {/}, {+}, \
 plus seeded random byte strings (escape-dense) up to 2000 bytes and random protected sets (incl. non-ASCII => panic); \
 a q-case is non-trivial if at least one input was changed by decoding; distinct = distinct (case, output) hashes";
@@ -699,6 +705,8 @@ fn run_m(prefix: bool, ws: &[&str]) -> CaseResult {
             outs.push("bad-case".to_owned());
             continue;
         };
+        let had_fail = res.fail.is_some();
+        let minimal = format!(" | minimal case: m {} {} {}", if prefix { "P" } else { "F" }, pats_words(&pats, single), w);
         let in_scope = path.len() < 65536; // `http::Uri` never hands out longer paths
         let is = rd.is_match(&path);
         let find = rd.find_match(&path);
@@ -760,6 +768,11 @@ fn run_m(prefix: bool, ws: &[&str]) -> CaseResult {
             }
         } else {
             res = res.tag("m-over-64k");
+        }
+        if !had_fail {
+            if let Some((_, d)) = res.fail.as_mut() {
+                d.push_str(&minimal);
+            }
         }
         outs.push(format!(
             "{}/{}/{}",
@@ -839,6 +852,42 @@ fn run_b(prefix: bool, ws: &[&str]) -> CaseResult {
                     res = res.fail("build-no-match", format!("pattern {:?} values {:?} built {:?} does not match", pats[0], used, built));
                 }
             }
+        }
+    }
+    res
+}
+
+fn run_bm(prefix: bool, ws: &[&str]) -> CaseResult {
+    let Some((pats, single, kvs)) = take_patterns(ws) else {
+        return CaseResult::ok("bad-case".into());
+    };
+    let mut res = CaseResult::ok(String::new()).tag("bm");
+    res.nontrivial = false;
+    let Some(rd) = mk_def(prefix, &pats, single) else {
+        res.output = "panic".into();
+        return res;
+    };
+    let mut map = std::collections::HashMap::new();
+    for kv in kvs {
+        let Some((k, v)) = kv.split_once('=') else { return CaseResult::ok("bad-case".into()) };
+        let (Some(k), Some(v)) = (unhex_str(k), unhex_str(v)) else { return CaseResult::ok("bad-case".into()) };
+        map.insert(k, v);
+    }
+    let mut built = String::new();
+    let ok = rd.resource_path_from_map(&mut built, &map);
+    res.output = format!("{}:{}", ok as u8, hs(&built));
+    // oracle: from_map with the names of the first pattern = from_iter with the values in order
+    if let Some(r) = ref_parse(&pats[0], !single) {
+        let names: Vec<&String> = r.segs.iter().filter_map(|s| if let RSeg::Var(n, _) = s { Some(n) } else { None }).collect();
+        if let Some(vals) = names.iter().map(|n| map.get(*n).cloned()).collect::<Option<Vec<String>>>() {
+            let mut again = String::new();
+            let ok2 = rd.resource_path_from_iter(&mut again, &vals);
+            res.nontrivial = ok && !vals.is_empty();
+            if !ok || !ok2 || again != built {
+                res = res.fail("build-map-vs-iter", format!("from_map {:?}/{} from_iter {:?}/{}", built, ok, again, ok2));
+            }
+        } else if ok {
+            res = res.fail("build-map-missing", format!("from_map succeeded although a name is missing: {:?}", built));
         }
     }
     res
@@ -1147,6 +1196,26 @@ fn gen_random(ctx: &Ctx, rng: &mut Rng, cases: &mut Vec<String>) {
                 }
                 let vs: Vec<String> = vals.iter().map(|v| hs(v)).collect();
                 cases.push(format!("b {} {} {}", if prefix { "P" } else { "F" }, pats_words(&pats, true), vs.join(" ")).trim_end().to_owned());
+                // the same through resource_path_from_map (names of the pattern, shuffled, maybe one missing / extra / doubled)
+                let mut kvs: Vec<String> = r
+                    .segs
+                    .iter()
+                    .filter_map(|s| if let RSeg::Var(n, _) = s { Some(n.clone()) } else { None })
+                    .zip(vals.iter())
+                    .map(|(n, v)| format!("{}={}", hs(&n), hs(v)))
+                    .collect();
+                if kvs.len() > 1 && rng.chance(1, 2) {
+                    let i = rng.below(kvs.len());
+                    kvs.swap(0, i);
+                }
+                if rng.chance(1, 8) {
+                    kvs.push(format!("{}={}", hs("zz"), hs("1")));
+                }
+                if rng.chance(1, 8) && !kvs.is_empty() {
+                    let again = format!("{}={}", kvs[0].split('=').next().unwrap(), hs("dup"));
+                    kvs.push(again);
+                }
+                cases.push(format!("bm {} {} {}", if prefix { "P" } else { "F" }, pats_words(&pats, true), kvs.join(" ")).trim_end().to_owned());
             }
         }
     }
@@ -1229,6 +1298,7 @@ fn run(line: &str) -> CaseResult {
         Some("q") if words.len() >= 2 => run_q(&words),
         Some("m") if words.len() >= 3 => run_m(words[1] == "P", &words[2..]),
         Some("b") if words.len() >= 3 => run_b(words[1] == "P", &words[2..]),
+        Some("bm") if words.len() >= 3 => run_bm(words[1] == "P", &words[2..]),
         Some("k") if words.len() >= 2 => run_k(&words[1..]),
         _ => {
             let mut r = CaseResult::ok("bad-case".into());
